@@ -134,6 +134,11 @@ class Gen:
         if d <= 0:
             return N("f1") if r.random() < .6 else C(r.choice([0.5, 2.5, 1.25]))
         k = r.random()
+        if k < 0.12:
+            # power with a float (possibly negative) base and a small exponent
+            base = self.pick([N("f1"), C(2.5), ["un", "-", C(2.0)], ["un", "-", C(0.5)], ["un", "-", N("f1")]])
+            exp = C(r.choice([0, 1, 2, 3])) if r.random() < 0.5 else N(self.pick(["i2", "i3"]))
+            return ["bin", "**", base, exp]
         if k < 0.5:
             return ["bin", self.pick(["+", "-", "*", "/"]), self.num_(d - 1), self.num_(d - 1)]
         if k < 0.7:
